@@ -356,6 +356,36 @@ func c14Defaults(c *Check, P string) {
 		}
 	}
 	c.Report(okSt, P+".O2", "DEFAULT-REPOSITORY-KEPT", def, def.Pos(), "default repository", "a default repository is stored in the caller's Deduplicator (not in a private copy)")
+	// what the caller configured is kept: a field of the caller's Deduplicator is overwritten only on the edge on which it
+	// was found unset (key factory, repository: nil; timeout: below the floor) — a default that replaces a custom key
+	// factory makes different keys suppress each other
+	for _, st := range stFieldStores(def) {
+		fld, base := FieldOf(st.Addr)
+		if fld == nil || base == nil || !FromParam(dP)(base) {
+			continue
+		}
+		isFld := func(v ssa.Value) bool { return AllOrigins(v, func(o ssa.Value) bool { return LoadedField(o) == fld }) }
+		var unset []Edge
+		if _, isNilable := fld.Type().Underlying().(*types.Basic); !isNilable {
+			eq, _ := NilEdges(def, isFld)
+			unset = eq
+		} else {
+			for _, t := range Tests(def) {
+				if (t.Op == token.LSS || t.Op == token.LEQ) && isFld(t.X) {
+					unset = append(unset, t.True)
+				}
+				if (t.Op == token.GTR || t.Op == token.GEQ) && isFld(t.X) {
+					unset = append(unset, t.False)
+				}
+				if t.Op == token.EQL && isFld(t.X) {
+					if z, isC := IntConst(t.Y); isC && z == 0 {
+						unset = append(unset, t.True)
+					}
+				}
+			}
+		}
+		c.Report(len(unset) > 0 && GuardedBy(def, st, unset), P+".O2", "DEFAULT-ONLY-IF-UNSET", def, st.Pos(), "default for "+fld.Name(), "a field of the caller's Deduplicator gets its default only on the edge on which it was found unset (nil, or below the minimum)")
+	}
 	// both entry points use it
 	for _, name := range []string{"Middleware", "PublisherDecorator"} {
 		fn := c.P.MethodOf(D, name)
@@ -515,6 +545,16 @@ func c14Dedup(c *Check, P string) {
 			srcs = append(srcs, ErrSource{ip, 0})
 		}
 		ErrorsOnlyFrom(c, P+".O2", "DECORATOR-FAILS-ONLY-ON-FAULT", pub, srcs, nil, "the deduplicating publisher fails only when the repository or the wrapped publisher failed")
+	}
+	// and it succeeds only through the wrapped publisher: a repository failure is handed on, never turned into a
+	// success that leaves the rest of the batch unpublished
+	{
+		re := ReachEntry(pub, NewCut().AddInstrs(instrsOf(inner)...))
+		for i, r := range Returns(pub) {
+			if RetNil(r, 0) {
+				c.Report(!re[r], P+".O2", "DECORATOR-SUCCEEDS-ONLY-THROUGH-PUBLISH", pub, r.Pos(), fmt.Sprintf("decorator return#%d", i), "the deduplicating publisher reports success only after the wrapped Publish was called (with whatever is new in the batch)")
+			}
+		}
 	}
 	acks := SettleSites(pub, nAck, func(v ssa.Value) bool { return AllOrigins(v, isElem) }, 0)
 	c.Floor(P+".O2", "decorator: Ack of a duplicate", len(acks), 1)
@@ -746,4 +786,17 @@ func constInt(k *types.Const) (int64, bool) {
 	var n int64
 	_, err := fmt.Sscan(s, &n)
 	return n, err == nil
+}
+
+// stFieldStores lists the stores to struct fields in fn.
+func stFieldStores(fn *ssa.Function) []*ssa.Store {
+	var out []*ssa.Store
+	AllInstrs(fn, func(in ssa.Instruction) {
+		if st, ok := in.(*ssa.Store); ok {
+			if f, _ := FieldOf(st.Addr); f != nil {
+				out = append(out, st)
+			}
+		}
+	})
+	return out
 }
